@@ -42,29 +42,92 @@ def okName (x : String) : Bool := okBinder x && okSym x
 /-- a parameter: such a name, not lazy -/
 def okParam (p : String) : Bool := okName p && !p.startsWith "#"
 
+/-- a call head that cannot be the name the generator gives an anonymous function -/
+def okHead (h : String) : Bool := okSym h && !h.startsWith "__anon"
+
 mutual
-/-- F2a expressions. `self`: the name of the function whose body this is (a call of it in a
-directly compiled position could be compiled as a self tail call — that is F2c). Operands of calls
-are compiled at run time, outside any function: `self = ""` there. -/
-def Ff (self : String) : Expr → Bool
+/-- F2 expressions. `fnOk`: the position is compiled when the text is loaded (`fn`/`defn` may
+stand there) — operands of calls are compiled at run time, `fnOk = false` in them. `self`: the name
+of the function whose body this is (a call of it in a directly compiled position could be compiled
+as a self tail call — that is F2c); `""` at top level, in operands and in anonymous functions. -/
+def Ff (fnOk : Bool) (self : String) : Expr → Bool
   | .int _ | .bool _ | .str _ | .nilLit => true
   | .sym x => okSym x
-  | .begin_ es => FfList self es
-  | .def_ x e => okName x && Ff self e
-  | .set_ x e => okName x && Ff self e
-  | .cond arms d => FfArms self arms && Ff self d
-  | .call (.sym h) args => (h != self) && (h != "") && okSym h && FaList args
+  | .begin_ es => FfList fnOk self es
+  | .def_ x e => okName x && Ff fnOk self e
+  | .set_ x e => okName x && Ff fnOk self e
+  | .cond arms d => FfArms fnOk self arms && Ff fnOk self d
+  | .call (.sym h) args => (h != self) && (h != "") && okHead h && FaList args
+  | .fn ps rest body =>
+    fnOk && rest.isNone && decide ps.Nodup && ps.all okParam && !body.isEmpty && FfList true "" body
+  | .defn name ps rest body =>
+    fnOk && rest.isNone && okName name && (name != "") && decide ps.Nodup && ps.all okParam && !body.isEmpty
+      && FfList true name body
   | _ => false
-def FfList (self : String) : List Expr → Bool
+def FfList (fnOk : Bool) (self : String) : List Expr → Bool
   | [] => true
-  | e :: es => Ff self e && FfList self es
-def FfArms (self : String) : List (Expr × Expr) → Bool
+  | e :: es => Ff fnOk self e && FfList fnOk self es
+def FfArms (fnOk : Bool) (self : String) : List (Expr × Expr) → Bool
   | [] => true
-  | (p, b) :: r => Ff self p && Ff self b && FfArms self r
+  | (p, b) :: r => Ff fnOk self p && Ff fnOk self b && FfArms fnOk self r
 def FaList : List Expr → Bool
   | [] => true
-  | e :: es => Ff "" e && FaList es
+  | e :: es => Ff false "" e && FaList es
 end
+
+/-- the generator's name for the function being compiled: the one the fragment was checked
+against, none, or the name of an anonymous function -/
+def FnameOk (self : String) (c : Ctx) : Prop :=
+  c.funcname = self ∨ c.funcname = "" ∨ ∃ t : Nat, c.funcname = s!"__anon{t}"
+
+theorem anon_prefix (t : Nat) : (s!"__anon{t}").startsWith "__anon" = true := by
+  simp
+  have h : (toString "__anon").toList = ['_', '_', 'a', 'n', 'o', 'n'] := by decide
+  rw [h]; exact List.prefix_append _ _
+
+theorem ne_anon (t : Nat) (h : String) (hh : h.startsWith "__anon" = false) : (h == s!"__anon{t}") = false := by
+  by_cases e : h = s!"__anon{t}"
+  · rw [e, anon_prefix] at hh; cases hh
+  · simpa using e
+
+/-! ## The generator's tables -/
+
+/-- what compiling does to the generator state: templates appended, nothing else -/
+structure KeepFns (g₁ g₂ : GS) : Prop where
+  len : g₁.fns.length ≤ g₂.fns.length
+  fns : ∀ t, t < g₁.fns.length → g₂.fns.getD t {} = g₁.fns.getD t {}
+  live : g₂.live = g₁.live
+  loops : g₂.loops = g₁.loops
+  loopstack : g₂.loopstack = g₁.loopstack
+
+theorem KeepFns.refl (g : GS) : KeepFns g g := ⟨Nat.le_refl _, fun _ _ => rfl, rfl, rfl, rfl⟩
+
+theorem KeepFns.trans {a b c : GS} (h₁ : KeepFns a b) (h₂ : KeepFns b c) : KeepFns a c :=
+  ⟨Nat.le_trans h₁.len h₂.len, fun t ht => (h₂.fns t (Nat.lt_of_lt_of_le ht h₁.len)).trans (h₁.fns t ht),
+   h₂.live.trans h₁.live, h₂.loops.trans h₁.loops, h₂.loopstack.trans h₁.loopstack⟩
+
+/-- the code was compiled when its text was loaded (generator state `gs` before, `gs'` after, the
+live stack then being the global scope alone), and the templates made on the way are in the
+function table of the running state -/
+structure GenOk (gs gs' : GS) (s : St) : Prop where
+  live : gs.live = [some 0]
+  main : mainFn < gs.fns.length
+  len : gs'.fns.length ≤ s.fns.length
+  tmpl : ∀ t, gs.fns.length ≤ t → t < gs'.fns.length → fnOf s t = gs'.fns.getD t {}
+
+/-- the part of `GenOk` for the first of two consecutive compiles -/
+theorem GenOk.first {gs g₁ g₂ : GS} {s : St} (h : GenOk gs g₂ s) (hk : KeepFns g₁ g₂) : GenOk gs g₁ s :=
+  ⟨h.live, h.main, Nat.le_trans hk.len h.len,
+   fun t h1 h2 => by rw [h.tmpl t h1 (Nat.lt_of_lt_of_le h2 hk.len)]; exact hk.fns t h2⟩
+
+/-- the part of `GenOk` for the second of two consecutive compiles -/
+theorem GenOk.rest {gs g₁ g₂ : GS} {s : St} (h : GenOk gs g₂ s) (hk : KeepFns gs g₁) : GenOk g₁ g₂ s :=
+  ⟨hk.live.trans h.live, Nat.lt_of_lt_of_le h.main hk.len, h.len,
+   fun t h1 h2 => h.tmpl t (Nat.le_trans hk.len h1) h2⟩
+
+theorem GenOk.frame {gs gs' : GS} {s s' : St} (h : GenOk gs gs' s) (hf : Frame s s') : GenOk gs gs' s' :=
+  ⟨h.live, h.main, Nat.le_trans h.len hf.fnsLen,
+   fun t h1 h2 => by rw [hf.fns t (Nat.lt_of_lt_of_le h2 h.len)]; exact h.tmpl t h1 h2⟩
 
 /-! ## The live stack against the static chain -/
 
@@ -394,6 +457,10 @@ theorem FnsKeep.of_eq {s s' : St} (hlen : s.fns.length ≤ s'.fns.length)
     (hfns : ∀ id, id < s.fns.length → fnOf s' id = fnOf s id) (hm : mainFn < s.fns.length) : FnsKeep s s' :=
   ⟨hlen, fun id hid _ => hfns id hid, by rw [hfns _ hm], by rw [hfns _ hm]⟩
 
+theorem GenOk.mono {gs gs' : GS} {s s' : St} (h : GenOk gs gs' s) (hk : FnsKeep s s') : GenOk gs gs' s' :=
+  ⟨h.live, h.main, Nat.le_trans h.len hk.len, fun t h1 h2 => by
+    rw [hk.same t (Nat.lt_of_lt_of_le h2 h.len) (by have := h.main; omega)]; exact h.tmpl t h1 h2⟩
+
 theorem ChainF.congr {isFn isFn' : Nat → Bool} {frames frames' : List Ref.Frame}
     (hext : ∀ (i : Nat) (fr : Ref.Frame), frames[i]? = some fr →
       ∃ fr' : Ref.Frame, frames'[i]? = some fr' ∧ fr'.parent = fr.parent) :
@@ -482,7 +549,7 @@ structure GoodFn (m : Nat → Nat) (s : St) (rs : Ref.St) (vid : Nat) : Prop whe
         ∧ FnChainF s rs.frames (fnOf s vid).closing k' p)
     ∧ ∃ t b tl isFn cb gs0 gs1 self, (fnOf s vid).code = fnCode t c.ps b ∧ t < s.fns.length
         ∧ (fnOf s t).closing = [some 0] ∧ (compileBegin isFn cb c.body).run gs0 = .ok ((b, tl), gs1) ∧ cb.scopes = 0
-        ∧ (cb.funcname = self ∨ cb.funcname = "") ∧ FfList self c.body = true
+        ∧ FnameOk self cb ∧ FfList true self c.body = true ∧ GenOk gs0 gs1 s
 
 /-- the reference closure table only grows -/
 def ClosExt (rs rs' : Ref.St) : Prop := ∀ (i : Nat) (c : Ref.Clos), rs.clos[i]? = some c → rs'.clos[i]? = some c
@@ -503,14 +570,14 @@ theorem GoodFn.mono {m m' : Nat → Nat} {s s' : St} {rs rs' : Ref.St} {vid : Na
     (hfl : ∀ i, i < s.scopes.length → isFnScope s' i = isFnScope s i) (hr : RExt rs rs') (hm : m' vid = m vid) :
     GoodFn m' s' rs' vid := by
   obtain ⟨hlt, hnm, c, h1, h3, h4, h5, h6, h7, h8, h9, h10, hel, ⟨k', p, hp1, hp2, hch, hfc⟩,
-    t, b, tl, isFn, cb, gs0, gs1, self, hc1, hc2, hc3, hc4, hc5, hc6, hc7⟩ := h
+    t, b, tl, isFn, cb, gs0, gs1, self, hc1, hc2, hc3, hc4, hc5, hc6, hc7, hc8⟩ := h
   have e := hk.same vid hlt (by omega)
   have hfle : ∀ i, i ≤ c.env → isFnScope s' i = isFnScope s i := fun i hi => hfl i (by omega)
   refine ⟨Nat.lt_of_lt_of_le hlt hk.len, hnm, c, by rw [hm]; exact hr.2 _ _ h1, h3, h4, h5, h6, by rw [e]; exact h7,
     by rw [e]; exact h8, by rw [e]; exact h9, by rw [e]; exact h10, Nat.lt_of_lt_of_le hel hsl,
     ⟨k', p, by rw [e]; exact hp1, hp2, by rw [e]; exact hch.congr hr.1 hfle, ?_⟩,
     t, b, tl, isFn, cb, gs0, gs1, self, by rw [e]; exact hc1, Nat.lt_of_lt_of_le hc2 hk.len,
-    by rw [hk.closing t hc2]; exact hc3, hc4, hc5, hc6, hc7⟩
+    by rw [hk.closing t hc2]; exact hc3, hc4, hc5, hc6, hc7, hc8.mono hk⟩
   rw [e]
   exact hfc.transfer s.scopes.length hfl hr.1 hk (fun q hq => Nat.lt_trans (hch.k_lt q hq) hel)
     (takeToBoundary_chain hch hfle)
@@ -1303,7 +1370,7 @@ theorem GoodFn.create {m : Nat → Nat} {s : St} {rs : Ref.St} {env : Nat} (h : 
     (huser : (fnOf s t).user = false) (htlt : t < s.fns.length) (htclo : (fnOf s t).closing = [some 0])
     (hcode : ∃ b tl isFn cb gs0 gs1 self, (fnOf s t).code = fnCode t c.ps b
       ∧ (compileBegin isFn cb c.body).run gs0 = .ok ((b, tl), gs1) ∧ cb.scopes = 0
-      ∧ (cb.funcname = self ∨ cb.funcname = "") ∧ FfList self c.body = true)
+      ∧ FnameOk self cb ∧ FfList true self c.body = true ∧ GenOk gs0 gs1 s)
     (s₁ : St) (rs₁ : Ref.St) (hs1 : s₁ = afterClosure s t) (hrs1 : rs₁ = { rs with clos := rs.clos ++ [c] }) :
     GoodFn (mapWith m s.fns.length rs.clos.length) s₁ rs₁ s.fns.length := by
   subst hs1; subst hrs1
@@ -1316,10 +1383,10 @@ theorem GoodFn.create {m : Nat → Nat} {s : St} {rs : Ref.St} {env : Nat} (h : 
   have hk : FnsKeep s (afterClosure s t) := FnsKeep.of_eq (by rw [hfns1]; simp) hfo1 hmain
   have hmv : mapWith m s.fns.length rs.clos.length s.fns.length = rs.clos.length := by unfold mapWith; rw [if_pos rfl]
   have hcl : (closureObj s t).closing = Scope.takeToBoundary (isFnScope s) s.linear := closingNow_topSeg hc h.bottom
-  obtain ⟨b, tl, isFn, cb, gs0, gs1, self, hcd, hcomp, hsc0, hfname, hff⟩ := hcode
+  obtain ⟨b, tl, isFn, cb, gs0, gs1, self, hcd, hcomp, hsc0, hfname, hff, hgen⟩ := hcode
   refine ⟨by rw [hfns1]; simp, hmain, c, ?_, hrest, hnd, hps, hbody, ?_, ?_, ?_, ?_, ?_,
     ⟨k, s.curfunc, ?_, hfc.lt, ?_, ?_⟩, t, b, tl, isFn, cb, gs0, gs1, self, ?_, Nat.lt_of_lt_of_le htlt hk.len, ?_, hcomp,
-    hsc0, hfname, hff⟩
+    hsc0, hfname, hff, hgen.mono hk⟩
   · rw [hmv]; show (rs.clos ++ [c])[rs.clos.length]? = _; simp
   · rw [hnew1]; exact hparams
   · rw [hnew1]; exact hnargs
